@@ -83,16 +83,14 @@ def cfg_key(v: Value) -> str:
 
 
 def std_summaries(program: Program) -> Dict[str, Callable]:
-    """Models of the process-wide config singleton.  C14 checks separately that JASMConfig really is a
-    plain key/value store (get_info/_set_info on one dict)."""
+    """The process-wide config singleton: one JASMConfig object per run (= per process) whose `global_info` is an
+    ordinary dict; get_info / _set_info are the repository's own methods, interpreted, with an event recorded."""
     cfg_cls = program.find_class("JASMConfig")
-    holder: Dict[str, Obj] = {}
 
     def the_config(I: Interp) -> Obj:
-        key = id(I.run)
         o = I.run.const_cache.get(("$cfg", "obj"))  # one object per run
         if o is None:
-            o = Obj(cfg_cls, {})
+            o = Obj(cfg_cls, {"global_info": DictV([])})
             I.run.const_cache[("$cfg", "obj")] = o
         return o  # type: ignore[return-value]
 
@@ -101,18 +99,21 @@ def std_summaries(program: Program) -> Dict[str, Callable]:
 
     def s_get_info(I, func, self_val, args, kwargs, node, fr):
         k = cfg_key(args[0] if args else kwargs["key"])
-        store = the_config(I).fields
-        val = store["$" + k] if "$" + k in store else Unknown(f"cfg[{k}]", {"cfg_key": k})
+        store = the_config(I).fields["global_info"]
+        was_set = isinstance(store, DictV) and any(cfg_key(kk) == k for kk, _ in store.pairs)
+        val = I.call_func(func, args, kwargs, self_val, node, fr, skip_summary=True)
+        if val is NONE and not was_set:
+            # never loaded in this run: an opaque value (what an earlier, unknown, history left there)
+            val = Unknown(f"cfg[{k}]", {"cfg_key": k})
         I.run.event("cfg_get", key=k, node=node, func=(fr.func.qualname if fr and fr.func else ""),
-                    module=(fr.module if fr else ""), value=val, was_set=("$" + k in store))
+                    module=(fr.module if fr else ""), value=val, was_set=was_set)
         return val
 
     def s_set_info(I, func, self_val, args, kwargs, node, fr):
         k = cfg_key(args[0] if args else kwargs["key"])
         v = args[1] if len(args) > 1 else kwargs["value"]
         I.run.event("cfg_set", key=k, value=v, node=node, func=(fr.func.qualname if fr and fr.func else ""))
-        the_config(I).fields["$" + k] = v
-        return NONE
+        return I.call_func(func, args, kwargs, self_val, node, fr, skip_summary=True)
 
     return {"JASMConfig.__call__": s_instance, "JASMConfig.get_instance": s_instance,
             "JASMConfig.get_info": s_get_info, "JASMConfig._set_info": s_set_info}
@@ -131,6 +132,8 @@ def make_interp(program: Program, extra: Optional[Dict[str, Callable]] = None, *
     s = std_summaries(program)
     if extra:
         s.update(extra)
+    kw.setdefault("max_paths", 4000)
+    kw.setdefault("max_steps", 150000)
     I = Interp(program, s, **kw)
     I.unknown_call_hook = child_hook
     return I
